@@ -5,13 +5,17 @@ single-column operands; function arguments that are equally shaped arrays or
 scalars), Fit (trim / repeat / #N/A, exactly the target's shape), Member.
 TLC enumerates every (operand shape, operand shape, target shape) triple up
 to 4x4 for a binary operator (16^3 = 4096) and every (argument kinds, array
-shape, target shape) for functions of 1..3 arguments, checks the laws
+shape, target shape) for functions of 1..3 arguments -- the target shapes run
+from ONE cell to 4x4 -- each of them bare and as the argument of an
+aggregating function ({=SUM(A*B)}, {=SUM(IFERROR(A,0))}: action Wrap, the
+formula then yields one value made of the scalar applications at all the
+positions of the lifted array), checks the laws
 (Recalculated, BroadcastCases, FnEqualOrScalar, ShapeExact, Pointwise,
-PointwiseDecode, PointwiseSpecial, Trimmed, Repeated, Uncovered,
+PointwiseDecode, PointwiseSpecial, Aggregated, Trimmed, Repeated, Uncovered,
 OnlyUncoveredNA, MemberOwn, Windows, FitIdempotent, TargetGrowthStable,
-OperandGrowthLocal) and exports one vector per state: the operand elements,
-the lifted symbolic "+" and, per target cell, the operand positions the cell
-is computed from.
+OperandGrowthLocal, WrapAggregates) and exports one vector per state: the
+operand elements, the lifted symbolic "+" (or its sum) and, per target cell,
+the operand positions the cell is computed from.
 
 Binding.
  * library calls: the operator fixup (array_fixup), cse_array_wrapper and
@@ -27,7 +31,14 @@ Binding.
    #N/A where the spec says "uncovered", else the *scalar application* to the
    elements at the exported positions: the same operator / function applied
    in a plain (non array) formula to the single cells.  For "+" on the
-   symbolic elements the value exported by TLC is used as well.
+   symbolic elements the value exported by TLC is used as well.  Inside an
+   aggregating function the expected value is the same aggregating function
+   in a plain formula over the cells that hold the scalar applications at
+   every position of the lifted array (SUM, MAX, MIN, COUNT, AVERAGE: they
+   treat an array and a range of cells alike).
+   The catalogue of array-aware functions has the ones lifted by
+   cse_array_wrapper and the ones that fan out by themselves when an array
+   formula is being evaluated (IFERROR, IFNA, IFS).
 
 Not judged (statement silent): operand shapes that do not broadcast
 (2x3 with 3x2 ...: exported with defined=false, not executed); blank
@@ -45,6 +56,7 @@ from harness.evidence import Verdict
 PID = 'C13'
 MAX = 4
 NA = '#N/A'
+AGG = 'agg'             # mark of the spec: the cell shows the aggregate
 OVERLAP_READS = True    # also read members through ranges other than the target
 
 # ---------------------------------------------------------------------------
@@ -79,7 +91,9 @@ FUNCS = {
         ('LEN({0})', ('txt',)),
         ('UPPER({0})', ('txt',)),
         ('ISTEXT({0})', ('sgn',)),
-        ('ISERROR({0})', ('sgn',))],
+        ('ISERROR({0})', ('sgn',)),
+        ('IFERROR({0},"e")', ('err',)),
+        ('IFNA({0},-1)', ('err',))],
     2: [('ROUND({0},{1})', ('frac', 'digits')),
         ('MOD({0},{1})', ('sym', 'pos')),
         ('POWER({0},{1})', ('base', 'expo')),
@@ -87,13 +101,20 @@ FUNCS = {
         ('EXACT({0},{1})', ('txtcmp', 'txtcmp')),
         ('ATAN2({0},{1})', ('sgn', 'pos')),
         ('ROUNDDOWN({0},{1})', ('frac', 'digits')),
-        ('{0}+{1}', ('sym', 'sym'))],
+        ('{0}+{1}', ('sym', 'sym')),
+        ('IFERROR({0},{1})', ('err', 'sym')),
+        ('IFNA({0},{1})', ('err', 'txt'))],
     3: [('IF({0},{1},{2})', ('bool', 'sym', 'sym')),
         ('IF({0}>2,{1},{2})', ('cmp', 'sym', 'txt')),
         ('MID({0},{1},{2})', ('txt', 'count', 'count')),
         ('SUBSTITUTE({0},{1},{2})', ('txt', 'old', 'txt')),
-        ('{0}+{1}*{2}', ('sym', 'sym', 'pos'))],
+        ('{0}+{1}*{2}', ('sym', 'sym', 'pos')),
+        ('IFS({0}>1,{1},TRUE,{2})', ('cmp', 'sym', 'txt')),
+        ('IFERROR({0}/{1},{2})', ('sym', 'cmp', 'sgn'))],
 }
+# aggregating functions a lifted array is put into (an array and a range of
+# cells are the same to them: text and logical values in it are ignored)
+AGGS = ['SUM', 'MAX', 'MIN', 'COUNT', 'AVERAGE']
 
 
 def gen(domain, k, i, j, sym):
@@ -125,6 +146,9 @@ def gen(domain, k, i, j, sym):
         return 1 + (i + j + k) % 3              # 1 .. 3
     if domain == 'old':
         return 'B%d' % i
+    if domain == 'err':                         # numbers, #N/A, other errors
+        return {0: NA, 1: '#DIV/0!'}.get(
+            (i + 2 * j + k) % 4, (10 * i + j + 0.25 + k) * (-1 if j % 2 else 1))
     raise ValueError(domain)
 
 
@@ -208,18 +232,28 @@ def build_group(task):
         else:
             optext.append(ref(OP_ROW, c0, h, w))
     formula = '=' + template.format(*optext)
+    if task['agg']:
+        formula = '=%s(%s)' % (task['agg'], formula[1:])
     # the scalar application for each distinct tuple of source positions
     scalar_at = {}
-    for st, (src, _) in task['targets'].items():
-        for row in src:
-            for p in row:
-                key = tuple(map(tuple, p))
-                if key and key not in scalar_at:
-                    addr = f'{xl_col(SC_COL)}{1 + len(scalar_at)}'
-                    scalar_at[key] = addr
-                    cells[addr] = '=' + template.format(*[
-                        ref(OP_ROW + pk[0] - 1, OP_COL + OP_STEP * k + pk[1] - 1, 1, 1)
-                        for k, pk in enumerate(key)])
+    if task['agg']:
+        # ... at every position of the lifted array, in reading order
+        sources = [p for row in task['inner'] for p in row]
+    else:
+        sources = [p for st, (src, _) in task['targets'].items() for row in src for p in row]
+    for p in sources:
+        key = tuple(map(tuple, p))
+        if key and key not in scalar_at:
+            addr = f'{xl_col(SC_COL)}{1 + len(scalar_at)}'
+            scalar_at[key] = addr
+            cells[addr] = '=' + template.format(*[
+                ref(OP_ROW + pk[0] - 1, OP_COL + OP_STEP * k + pk[1] - 1, 1, 1)
+                for k, pk in enumerate(key)])
+    if task['agg']:
+        # the aggregating function in a plain formula over those cells
+        addr = f'{xl_col(SC_COL + 1)}1'
+        cells[addr] = '=%s(%s)' % (task['agg'], ref(1, SC_COL, len(scalar_at), 1))
+        scalar_at[AGG] = addr
     arrays = {}
     for st in task['targets']:
         r0, c0 = target_origin(st)
@@ -272,7 +306,7 @@ def run_group(task):
     cells, arrays, formula, scalar_at, values = build_group(task)
     rnd = random.Random(task['seed'] + 1)
     label = dict(cfg=task['cfg'], form=task['form'], kinds=task['kinds'],
-                 shapes=task['shapes'], formula=formula)
+                 shapes=task['shapes'], agg=task['agg'], formula=formula)
 
     def compile_model(cells, arrays):
         out['workbooks'] += 1
@@ -303,6 +337,15 @@ def run_group(task):
             scal[key] = call(m.evaluate, 'S!' + scalar_at[key])
         return scal[key]
 
+    def undefined_value(x):
+        return isinstance(x, Exception) or x is None or x == '' or isinstance(x, tuple)
+
+    def aggregate():
+        """the aggregating function over the scalar applications, if they all are defined"""
+        if any(undefined_value(scalar(key)) for key in scalar_at if key != AGG):
+            return None
+        return scalar(AGG)
+
     def expected(st):
         """matrix of expected values; None if a scalar application raises"""
         src, ssum = task['targets'][st]
@@ -313,8 +356,8 @@ def run_group(task):
                 if not p:
                     r.append(NA)
                     continue
-                x = scalar(tuple(map(tuple, p)))
-                if isinstance(x, Exception) or x is None or x == '' or isinstance(x, tuple):
+                x = aggregate() if p == [AGG] else scalar(tuple(map(tuple, p)))
+                if undefined_value(x):
                     undefined += 1
                     r.append(None)
                     continue
@@ -372,7 +415,7 @@ def run_group(task):
     done = []
     for st in sorted(task['targets']):
         want, undefined = expected(st)
-        key = (task['cfg'], task['template'], task['form'], tuple(task['kinds']),
+        key = (task['cfg'], task['ftemplate'], task['form'], tuple(task['kinds']),
                tuple(map(tuple, task['shapes'])), st)
         if undefined:
             out['skipped_cells'] += undefined
@@ -418,7 +461,7 @@ def run_group(task):
         for st, want in picked:
             r0, c0 = target_origin(st)
             th, tw = st
-            out['cases'].append((task['cfg'], task['template'], task['form'],
+            out['cases'].append((task['cfg'], task['ftemplate'], task['form'],
                                  tuple(task['kinds']),
                                  tuple(map(tuple, task['shapes'])), st, 'overlap'))
             if th * tw > 1:
@@ -481,8 +524,8 @@ def library_checks(v, vectors, cfgname, found):
                 for e, s in zip(vec['elems'], shapes)]
         want_res, want_cells = to_py(vec['res']), to_py(vec['sum'])
         case = dict(cfg=cfgname, form=vec['form'], kinds=vec['kinds'],
-                    shapes=vec['shapes'], target=vec['st'])
-        if st == (1, 1):        # the lift depends on the operands only
+                    shapes=vec['shapes'], target=vec['st'], agg=vec['agg'])
+        if st == (1, 1) and not vec['agg']:     # the lift depends on the operands only
             if vec['form'] == 'op':
                 got = call(fixup, args[0], 'Add', args[1])
                 what = 'operand fixup (array_fixup) A+B'
@@ -513,9 +556,8 @@ def library_checks(v, vectors, cfgname, found):
                     found.setdefault('library lift', []).append(
                         (f'{what} on shapes {vec["shapes"]} with the 1x1 operand given as a '
                          f'1x1 array: got {short(got)}, expected {want_res!r}', case))
-        # the fit depends on the result and the target only
-        if st == (1, 1):
-            continue        # a 1x1 target is loaded as a plain formula
+        # the fit depends on the result and the target only (a target of one
+        # cell is a target: the result is trimmed to its top left element)
         # (a 1x1 result is tried both as a scalar and as a 1x1 array)
         results = [want_res] if tuple(vec['rshape']) != (1, 1) else \
             [want_res[0][0], want_res]
@@ -572,7 +614,8 @@ def expected_states():
     shapes = MAX * MAX
     kind_vectors = sum(2 ** n for n in (1, 2, 3))
     all_scalar = 3
-    return shapes ** 3 + (kind_vectors - all_scalar) * shapes * shapes + all_scalar * shapes
+    bare = shapes ** 3 + (kind_vectors - all_scalar) * shapes * shapes + all_scalar * shapes
+    return 2 * bare         # each of them also inside an aggregating function
 
 
 def run_tlc(label, module, cfg, spec_dir, library=None):
@@ -607,7 +650,7 @@ def coverage_run(v):
     res = tlc.run('MC_Arrays', cfg, workers=1, coverage=True, timeout=900, heap='2g')
     if not res.ok:
         raise tlc.MachineryFailure('coverage run failed:\n' + res.stdout[-1500:])
-    for action in ('GrowA', 'GrowB', 'GrowT'):
+    for action in ('GrowA', 'GrowB', 'GrowT', 'Wrap'):
         if res.coverage.get(action, (0, 0))[1] == 0:
             raise tlc.MachineryFailure(f'vacuous: action {action} never taken '
                                        f'({res.coverage})')
@@ -616,24 +659,32 @@ def coverage_run(v):
 
 
 def group_vectors(vectors):
-    """(form, kinds, shapes) -> {st: (src, sum)} and the operand elements"""
+    """(form, kinds, shapes, agg) -> {st: (src, sum)} and the operand elements"""
     groups = {}
     for vec in vectors:
         if not vec['defined']:
             continue
-        key = (vec['form'], tuple(vec['kinds']), tuple(map(tuple, vec['shapes'])))
-        g = groups.setdefault(key, dict(elems=vec['elems'], targets={}))
+        key = (vec['form'], tuple(vec['kinds']), tuple(map(tuple, vec['shapes'])),
+               vec['agg'])
+        g = groups.setdefault(key, dict(elems=vec['elems'], inner=vec['inner'], targets={}))
         g['targets'][tuple(vec['st'])] = (vec['src'], vec['sum'])
     return groups
 
 
 def make_tasks(cfgname, groups, tier, rnd, filedir, fraction):
     tasks = []
-    for (form, kinds, shapes), g in sorted(groups.items()):
+    for (form, kinds, shapes, agg), g in sorted(groups.items()):
         if len(g['targets']) != MAX * MAX:
             raise tlc.MachineryFailure(f'{cfgname}: group {form} {kinds} {shapes} has '
                                        f'{len(g["targets"])} targets')
-        if form == 'op':
+        if agg:
+            # inside an aggregating function: a sample of the catalogue
+            cat = BINOPS if form == 'op' else FUNCS[len(kinds)]
+            if tier == 'thorough' or rnd.random() < max(fraction, 0.5):
+                entries = [rnd.choice(cat)]
+            else:
+                entries = []
+        elif form == 'op':
             if tier == 'thorough':
                 entries = list(BINOPS)
             else:
@@ -649,12 +700,16 @@ def make_tasks(cfgname, groups, tier, rnd, filedir, fraction):
             else:
                 entries = [rnd.choice(cat)] if rnd.random() < max(fraction, 0.5) else []
         for template, domains in entries:
-            tid = f'{cfgname}|{form}|{kinds}|{shapes}|{template}'
+            outer = rnd.choice(AGGS) if agg else None
+            ftemplate = f'{outer}({template})' if agg else template
+            tid = f'{cfgname}|{form}|{kinds}|{shapes}|{ftemplate}'
             tasks.append(dict(
                 cfg=cfgname, form=form, kinds=list(kinds),
                 shapes=[list(s) for s in shapes], elems=g['elems'],
                 targets=g['targets'], template=template, domains=domains,
-                use_sum=(template == '{0}+{1}' and domains == ('sym', 'sym')),
+                agg=outer, inner=g['inner'], ftemplate=ftemplate,
+                use_sum=(template == '{0}+{1}' and domains == ('sym', 'sym')
+                         and outer in (None, 'SUM')),
                 seed=zlib.crc32(tid.encode()) ^ rnd.getrandbits(30),
                 variants=rnd.random() < 0.5,
                 overlap=OVERLAP_READS and rnd.random() < (
@@ -694,7 +749,7 @@ def run(tier, seed):
         for x in res.json:
             if x['form'] == 'op' and x['sa'] == [2, 3] and x['sb'] == [2, 1] \
                     and x['st'] == [3, 4] and n == 0:
-                v.sample({k: x[k] for k in ('form', 'sa', 'sb', 'st', 'rshape', 'sum')})
+                v.sample({k: x[k] for k in ('form', 'sa', 'sb', 'st', 'agg', 'rshape', 'sum')})
 
     procs = max(2, min(8 if tier == 'quick' else 12, (os.cpu_count() or 2)))
     agg = dict(evals=0, skipped_cells=0, skipped_targets=0, workbooks=0,
@@ -705,7 +760,7 @@ def run(tier, seed):
         for task, out in zip(tasks, pool.imap(run_group, tasks, chunksize=4)):
             for k in ('evals', 'skipped_cells', 'skipped_targets', 'workbooks'):
                 agg[k] += out[k]
-            t = per_template.setdefault(task['template'], [0, 0, 0])
+            t = per_template.setdefault(task['ftemplate'], [0, 0, 0])
             t[0] += 1
             t[1] += len(out['cases'])
             t[2] = max(t[2], out['informative'])
@@ -728,6 +783,7 @@ def run(tier, seed):
     v.traces = nvec
     v.extra.update(
         bounds=dict(max_extent=MAX, max_args=3, shape_triples=MAX ** 6,
+                    smallest_target='1x1', aggregating_functions=AGGS,
                     states_per_configuration=expected_states()),
         exhaustive_over_shapes=True,
         configurations=[label for label, _ in results],
@@ -741,7 +797,9 @@ def run(tier, seed):
         rule='one case = (configuration, operator/function, operand shapes, '
              'target shape [, overlap reads]); expected cell = #N/A where the '
              'spec says uncovered, else the scalar application at the '
-             'exported source positions; "+" also against the value exported '
+             'exported source positions (inside an aggregating function: that '
+             'function over the scalar applications at all positions of the '
+             'lifted array); "+" also against the value exported '
              'by TLC; library level: array_fixup / cse_array_wrapper / '
              'fit_to_range against res / sum of every vector')
     v.assumptions = [
